@@ -13,7 +13,9 @@ import (
 	"fmt"
 	"math/rand"
 	"os"
+	"os/exec"
 	"reflect"
+	"runtime/debug"
 	"strconv"
 	"strings"
 	"testing"
@@ -318,6 +320,48 @@ func kpRun(w *bufio.Writer, loc string, msg interface{}) {
 	fmt.Fprintf(w, "kp keys loc=%s val=%s => %s\n", hex.EncodeToString([]byte(loc)), sexp, res)
 }
 
+// kpDeepNode: a value that can be followed for ever (next.next.….name)
+type kpDeepNode struct {
+	Name string
+	Next *kpDeepNode
+}
+
+// TestVerifKeyPathDeep is the child process of the `kp deep` line: it lowers the goroutine stack limit, extracts a key
+// through a locator with VERIF_DEEP_SEGMENTS segments and prints the result. Exceeding the stack limit is not a panic
+// that could be recovered from: it kills the process, so it must not happen in the harness process itself.
+func TestVerifKeyPathDeep(t *testing.T) {
+	n, _ := strconv.Atoi(os.Getenv("VERIF_DEEP_SEGMENTS"))
+	mb, _ := strconv.Atoi(os.Getenv("VERIF_DEEP_STACK_MB"))
+	if n == 0 || mb == 0 {
+		t.Skip("not the child of a kp deep line")
+	}
+	debug.SetMaxStack(mb << 20)
+	node := &kpDeepNode{Name: "k"}
+	node.Next = node
+	ks, err := getAffinityKeysFromMessage(strings.Repeat("next.", n)+"name", node)
+	fmt.Printf("VERIF-DEEP-RESULT keys=%v err=%v\n", ks, err != nil)
+}
+
+// kpDeep runs TestVerifKeyPathDeep in a child process.   kp deep segments=<n> stackmb=<m> => ok <hex keys> | err | crashed
+func kpDeep(w *bufio.Writer, segments, stackMB int) {
+	cmd := exec.Command(os.Args[0], "-test.run=^TestVerifKeyPathDeep$", "-test.count=1")
+	cmd.Env = append(os.Environ(), fmt.Sprintf("VERIF_DEEP_SEGMENTS=%d", segments), fmt.Sprintf("VERIF_DEEP_STACK_MB=%d", stackMB), "VERIF_OUT=")
+	outb, _ := cmd.CombinedOutput()
+	out := string(outb)
+	res := "crashed"
+	switch {
+	case strings.Contains(out, "VERIF-DEEP-RESULT keys=[k] err=false"):
+		res = "ok " + hex.EncodeToString([]byte("k"))
+	case strings.Contains(out, "VERIF-DEEP-RESULT") && strings.Contains(out, "err=true"):
+		res = "err"
+	case strings.Contains(out, "stack overflow") || strings.Contains(out, "goroutine stack exceeds"):
+		res = "crashed"
+	default:
+		res = "inconclusive"
+	}
+	fmt.Fprintf(w, "kp deep segments=%d stackmb=%d => %s\n", segments, stackMB, res)
+}
+
 func TestVerifKeyPath(t *testing.T) {
 	out := os.Getenv("VERIF_OUT")
 	if out == "" {
@@ -335,6 +379,9 @@ func TestVerifKeyPath(t *testing.T) {
 			kpRun(w, l, m)
 		}
 	}
+	// a locator of modest length on a small stack works; a long one needs stack in proportion to its length (K10)
+	kpDeep(w, 2000, 64)
+	kpDeep(w, 300000, 64)
 	// once more in the opposite order: the result of an extraction must not depend on earlier calls
 	corpus := kpCorpus()
 	for i := len(corpus) - 1; i >= 0; i-- {
